@@ -106,6 +106,7 @@ def _snap(x, depth=0):
 REPEAT_TWIN = False  # set per clause by run_one (Clause.repeat_twin): call again, scribble over the first result, call a third time
 REPEAT: list = []
 LAYOUT_TWIN = False  # set per clause by run_one (Clause.layout_twin)
+STRIDED_TWIN = False  # set per clause by run_one (Clause.strided_twin)
 LAYOUT: list = []    # filled by call(): function names whose result changed when array arguments were passed column-major
 
 
@@ -122,7 +123,25 @@ def _fortran(x, depth=0):
     return x, False
 
 
-def _equalish(a, b, depth=0) -> bool:
+def _strided(x, depth=0):
+    """Strided, read-only twin of an argument: the same values seen through a view with steps (2, 2) into a larger buffer filled with
+    junk - neither C- nor F-contiguous, not writeable.  Returns (twin, changed)."""
+    import numpy as np
+
+    if isinstance(x, np.ndarray) and x.ndim in (1, 2) and x.size > 1 and x.dtype != object:
+        big = np.ones(tuple(2 * n for n in x.shape), dtype=x.dtype)
+        view = big[::2] if x.ndim == 1 else big[::2, ::2]
+        view[...] = x
+        view.flags.writeable = False
+        return view, True
+    if isinstance(x, list) and depth < 3 and len(x) <= 64:
+        ys = [_strided(v, depth + 1) for v in x]
+        if any(c for _, c in ys):
+            return [y for y, _ in ys], True
+    return x, False
+
+
+def _equalish(a, b, depth=0, rtol=1e-9, atol=1e-11) -> bool:
     import numpy as np
 
     if isinstance(a, np.ndarray) or isinstance(b, np.ndarray):
@@ -132,14 +151,14 @@ def _equalish(a, b, depth=0) -> bool:
                 return False
             if a.dtype == object or b.dtype == object:
                 return all(x == y for x, y in zip(a.ravel().tolist(), b.ravel().tolist()))
-            return bool(np.allclose(a, b, rtol=1e-9, atol=1e-11, equal_nan=True))
+            return bool(np.allclose(a, b, rtol=rtol, atol=atol, equal_nan=True))
         except Exception:  # noqa: BLE001
             return True
     if isinstance(a, (list, tuple)) and isinstance(b, (list, tuple)) and depth < 4:
-        return len(a) == len(b) and all(_equalish(x, y, depth + 1) for x, y in zip(a, b))
+        return len(a) == len(b) and all(_equalish(x, y, depth + 1, rtol, atol) for x, y in zip(a, b))
     if isinstance(a, (bool, int, float, complex)) and isinstance(b, (bool, int, float, complex)):
         try:
-            return bool(np.isclose(a, b, rtol=1e-9, atol=1e-11, equal_nan=True))
+            return bool(np.isclose(a, b, rtol=rtol, atol=atol, equal_nan=True))
         except Exception:  # noqa: BLE001
             return True
     return True  # objects we cannot compare (expressions, generators, game objects) are not judged
@@ -159,8 +178,9 @@ def call(fn: Callable, *a, **k):
     """Call toqito; returns (value, None) or (None, exception).
 
     When the clause opts in (Clause.layout_twin) the call is repeated with every 2-D array argument passed column-major
-    (np.asfortranarray): the same mathematical input must give the same result; a difference is recorded in LAYOUT and
-    becomes a violation with site '<fn>:memory_layout'.
+    (np.asfortranarray) and once more with every 1-D / 2-D array argument passed as a strided, read-only view into a larger buffer:
+    the same mathematical input must give the same result; a difference is recorded in LAYOUT and becomes a violation with site
+    '<fn>:memory_layout'.
 
     Every ndarray / list argument is snapshotted before the call and compared afterwards: a function that modifies its
     caller's arguments is recorded in ALIASING and the engine turns the case into a violation with site '<fn>:aliasing'.
@@ -194,7 +214,7 @@ def call(fn: Callable, *a, **k):
                     REPEAT.append(getattr(fn, "__name__", repr(fn)) + ": modifying a returned array in place changed what a later call returns")
         except Exception as e:  # noqa: BLE001
             REPEAT.append(getattr(fn, "__name__", repr(fn)) + " raised " + type(e).__name__ + " on a repeated call")
-    if LAYOUT_TWIN and out[1] is None:
+    if LAYOUT_TWIN and out[1] is None and not _random_by_design(fn, a, k):
         a2 = [_fortran(v) for v in a]
         k2 = {n: _fortran(v) for n, v in k.items()}
         if any(c for _, c in a2) or any(c for _, c in k2.values()):
@@ -204,6 +224,18 @@ def call(fn: Callable, *a, **k):
                     LAYOUT.append(getattr(fn, "__name__", repr(fn)))
             except Exception as e:  # noqa: BLE001
                 LAYOUT.append(getattr(fn, "__name__", repr(fn)) + " raised " + type(e).__name__)
+        a3 = [_strided(v) if STRIDED_TWIN else (v, False) for v in a]
+        k3 = {n: _strided(v) if STRIDED_TWIN else (v, False) for n, v in k.items()}
+        if any(c for _, c in a3) or any(c for _, c in k3.values()):
+            try:
+                twin = fn(*[v for v, _ in a3], **{n: v for n, (v, _) in k3.items()})
+                # a strided operand takes different BLAS / LAPACK paths (internal copies), so ill-conditioned functions (arccos near 1,
+                # square roots of rank-deficient operators) differ by ~1e-8: the comparison is at 1e-6, the defects it is meant for
+                # (data read through the wrong strides, in-place writes) are gross
+                if not _equalish(out[0], twin, rtol=1e-6, atol=1e-6):
+                    LAYOUT.append(getattr(fn, "__name__", repr(fn)) + " (strided read-only view)")
+            except Exception as e:  # noqa: BLE001
+                LAYOUT.append(getattr(fn, "__name__", repr(fn)) + " raised " + type(e).__name__ + " on a strided read-only view")
     return out
 
 
@@ -240,6 +272,7 @@ class Clause:
     probe: int = 4  # number of leading cases re-executed by the determinism probe
     chunk: int = 0  # cases per work item (0: automatic)
     layout_twin: bool = False  # repeat every toqito call with column-major array arguments and require the same result
+    strided_twin: bool = False  # (with layout_twin) also repeat it with strided read-only views; not for ill-conditioned functions
     repeat_twin: bool = False  # repeat every toqito call, scribble over the returned arrays, call again: results must not change
     alphabets: Callable[[str, int], dict] | None = None
     weight: float = 0.0  # rough seconds per case (scheduling hint: heavy clauses first)
@@ -272,19 +305,20 @@ def _run_chunk(pid: str, clause_name: str, items: list) -> list:
 
 
 def run_one(clause: Clause, case: dict) -> dict:
-    global LAYOUT_TWIN, REPEAT_TWIN
+    global LAYOUT_TWIN, REPEAT_TWIN, STRIDED_TWIN
     t0 = time.time()
     del ALIASING[:]
     del LAYOUT[:]
     del REPEAT[:]
     LAYOUT_TWIN = bool(clause.layout_twin)
+    STRIDED_TWIN = bool(clause.strided_twin)
     REPEAT_TWIN = bool(clause.repeat_twin)
     try:
         res = clause.check(case)
         if REPEAT and isinstance(res, dict) and res.get("status") != VIOL:
             res = viol(REPEAT[0], site=f"{REPEAT[0].split(':')[0].split()[0]}:repeat_call", observed=REPEAT[:4])
         if LAYOUT and isinstance(res, dict) and res.get("status") != VIOL:
-            res = viol(f"{LAYOUT[0]}: result depends on the memory layout of an array argument (row-major vs column-major copy of the same values)",
+            res = viol(f"{LAYOUT[0]}: result depends on the memory layout of an array argument (row-major copy vs column-major copy / strided read-only view of the same values)",
                        site=f"{LAYOUT[0].split()[0]}:memory_layout", observed=LAYOUT[:4])
         if ALIASING and isinstance(res, dict) and res.get("status") != VIOL:
             fname, key = ALIASING[0]
